@@ -225,6 +225,51 @@ theorem noFault_entryArrs (io : FloatIO) : ∀ (es : List Entry) (m : FMap) (ind
     · exact noFault_entryArrs io es m ind hm
 end
 
+/-! ### unsupported-format ⇔ letter outside the set (scalars) -/
+
+theorem fmtVal_reported_scalar (io : FloatIO) (m : FMap) (ind : Ind) (v : Val) (hv : v.isContainer = false) (c : Code)
+    (h : fmtVal io m ind v = .reported c) :
+    (c = .unsupported ∧ accepts v.kind (getFormat m v.kind).f.letter = false) ∨
+    (c = .failure ∧ (getFormat m v.kind).f.letter = 's' ∧ ∃ bs, v = .binary bs none) := by
+  cases v with
+  | undef => simp [fmtVal, fmtUndef] at h
+  | dflt => simp only [fmtVal] at h; exact Or.inl (fmtDefault_reported _ c h)
+  | bool b => simp only [fmtVal] at h; exact Or.inl (fmtBool_reported io _ b c h)
+  | int i => simp only [fmtVal] at h; exact Or.inl (fmtInt_reported io _ i c h)
+  | float bits => simp only [fmtVal] at h; exact Or.inl (fmtFloat_reported io _ bits c h)
+  | str s => simp only [fmtVal] at h; exact Or.inl (fmtStr_reported _ s c h)
+  | regexp src => simp [fmtVal, fmtRegexp] at h
+  | binary bs u =>
+    simp only [fmtVal] at h
+    rcases fmtBinary_reported _ bs u c h with h' | ⟨h1, h2, h3⟩
+    · exact Or.inl h'
+    · exact Or.inr ⟨h1, h2, bs, by rw [h3]⟩
+  | array vs => simp [Val.isContainer] at hv
+  | hash es => simp [Val.isContainer] at hv
+
+theorem fmtVal_of_not_accepts (io : FloatIO) (m : FMap) (ind : Ind) (v : Val) (hv : v.isContainer = false)
+    (h : accepts v.kind (getFormat m v.kind).f.letter = false) : fmtVal io m ind v = .reported .unsupported := by
+  cases v with
+  | undef => simp [accepts, modelLetters, Val.kind] at h
+  | dflt => simp only [fmtVal]; exact fmtDefault_of_not_accepts _ h
+  | bool b => simp only [fmtVal]; exact fmtBool_of_not_accepts io _ b h
+  | int i => simp only [fmtVal]; exact fmtInt_of_not_accepts io _ i h
+  | float bits => simp only [fmtVal]; exact fmtFloat_of_not_accepts io _ bits h
+  | str s => simp only [fmtVal]; exact fmtStr_of_not_accepts _ s h
+  | regexp src => simp [accepts, modelLetters, Val.kind] at h
+  | binary bs u => simp only [fmtVal]; exact fmtBinary_of_not_accepts _ bs u h
+  | array vs => simp [Val.isContainer] at hv
+  | hash es => simp [Val.isContainer] at hv
+
+theorem fmtVal_unsupported_iff (io : FloatIO) (m : FMap) (ind : Ind) (v : Val) (hv : v.isContainer = false) :
+    fmtVal io m ind v = .reported .unsupported ↔ accepts v.kind (getFormat m v.kind).f.letter = false := by
+  constructor
+  · intro h
+    rcases fmtVal_reported_scalar io m ind v hv _ h with h' | h'
+    · exact h'.2
+    · cases h'.1
+  · exact fmtVal_of_not_accepts io m ind v hv
+
 /-! ### the container law -/
 
 theorem intercalate_cons (sep : Str) (x : Str) (xs : List Str) :
